@@ -71,7 +71,8 @@ Section Exact.
       destruct (atom_text1_inj2 n (c_name c) x v (proj2 Hnames n Hn) (proj2 Hnames _ Hcn) E) as (-> & ->).
       now rewrite (dom_of_concept s c (proj1 Hnames) Hc).
     - exfalso. apply existsb_exists in Ha as (y & Hy & Ha). destruct (Hcov y Hy) as (Hc & Hnd).
-      destruct y as [c|? ? ? ?|? ? ? ?|? ? ?|? ? ? ? ?]; try destruct Hnd; unfold adm_sentence in Ha; cbn [base_sentence] in Ha; try discriminate.
+      destruct y as [c|? ? ? ?|? ? ? ?|? ? y'|? ? ? ? ?]; try destruct Hnd; unfold adm_sentence in Ha; cbn [base_sentence] in Ha; try discriminate;
+        try (destruct y'; try destruct Hnd; cbn [base_sentence] in Ha; discriminate).
       cbn [covered] in Hc. destruct Hc as (Hds & Hdo & _ & _ & Hfe).
       apply existsb_exists in Ha as (fe & Hfein & Ha). apply existsb_exists in Ha as (x0 & Hx0 & Ha). apply existsb_exists in Ha as (y0 & Hy0 & E).
       apply String.eqb_eq in E. symmetry in E. revert E.
@@ -100,7 +101,7 @@ Section Exact.
       destruct (atom_text1_inj2 n (c_name c) x v (proj2 Hnames n Hn) (proj2 Hnames _ Hcn) E) as (-> & ->).
       now rewrite (dom_of_concept s c (proj1 Hnames) Hc).
     - exfalso. rewrite flat_map_flat_map in Hr. apply in_flat_map in Hr as (y & Hy & Hr). destruct (Hcov y Hy) as (Hc & Hnd).
-      destruct y as [c|? ? ? ?|required whenpart main wh|? ? ?|required neg v sv ov]; try destruct Hnd.
+      destruct y as [c|? ? ? ?|required whenpart main wh|l vals y'|required neg v sv ov]; try destruct Hnd.
       + cbn [covered] in Hc. destruct Hc as (Hds & Hdo & _ & Hne & Hfe). destruct (ch_foreach c) as [e|] eqn:Efe.
         * destruct Hfe as (Hde & Hes & Heo). rewrite (each_ground s U c e Efe Hne Hes Heo) in Hr.
           apply in_flat_map in Hr as (z & Hz & Hr). apply in_map_iff in Hr as (x0 & <- & Hx0). cbn [supports] in Hsup.
@@ -112,6 +113,8 @@ Section Exact.
           revert E. apply (concept_atom_not_chosen n x (SChoice c)); try assumption. cbn [choice_heads]. rewrite Efe.
           apply in_flat_map. exists x0. split; [exact Hx0|]. apply in_map_iff. eauto.
       + pose proof (cons_only_constraints s U required whenpart main wh r Hr) as Hk. destruct r; try destruct Hk. destruct Hsup.
+      + destruct y' as [?|? ? ? ?|rq wp mn wh|? ? ?|? ? ? ? ?]; try destruct Hnd.
+        destruct (oneof_rules_are_constraints s U l vals rq wp mn wh r Hr) as (b & ->). destruct Hsup.
       + pose proof (there_only_constraints s U required neg v sv ov r Hr) as Hk. destruct r; try destruct Hk. destruct Hsup.
   Qed.
 
